@@ -2,13 +2,16 @@
 # Runs the repository's baseline with the hook guard OFF and compares with /root/.vp/BASELINE.json.
 # usage: tools/baseline.sh [repo-dir]   (default /repo)
 repo=${1:-/repo}
+# BASELINE_TARGET: cargo target dir to use (default: the repository's own); scratch worktrees share one to save disk
+tgt=${BASELINE_TARGET:-$repo/target}
 log=$(mktemp /tmp/xvc-verif-baseline.XXXXXX)
 # the tests leave their scratch repositories (xvc-repo-*, ~40 MB each) behind: give them a private temp dir
 tmpd=$(mktemp -d /tmp/xvc-verif-baseline-tmp.XXXXXX)
-rm -f "$repo/target/nextest/pb/junit.xml"     # never read a stale report
-(cd "$repo" && TMPDIR="$tmpd" cargo nextest run --workspace --no-fail-fast --tool-config-file pb:/w/lib/nextest.toml --profile pb --test-threads 8 --offline --ignore-rust-version > "$log" 2>&1)
-[ -f "$repo/target/nextest/pb/junit.xml" ] || { echo "no test report: the build failed"; tail -30 "$log"; rm -f "$log"; rm -rf "$tmpd"; exit 2; }
-python3 - "$repo/target/nextest/pb/junit.xml" <<'PY'
+jx="$repo/target/nextest/pb/junit.xml"   # nextest keeps its store under the workspace's own target directory
+rm -f "$jx"     # never read a stale report
+(cd "$repo" && TMPDIR="$tmpd" CARGO_TARGET_DIR="$tgt" cargo nextest run --workspace --no-fail-fast --tool-config-file pb:/w/lib/nextest.toml --profile pb --test-threads 8 --offline --ignore-rust-version > "$log" 2>&1)
+[ -f "$jx" ] || { echo "no test report: the build failed"; tail -30 "$log"; rm -f "$log"; rm -rf "$tmpd"; exit 2; }
+python3 - "$jx" <<'PY'
 import json, sys
 import xml.etree.ElementTree as ET
 d = json.load(open('/root/.vp/BASELINE.json'))
